@@ -106,6 +106,8 @@ def p_returns_variant(pr, prog, cg, body, R):
             continue
         n += 1
         r = strip(p.ret)
+        if pr.get("wrap") and r[0] == "call" and any(r[1].endswith(x) for x in pr.get("via", [])):
+            continue     # the callee's own Result is passed on unchanged (its premise is listed separately)
         if pr.get("wrap"):
             # Result/Option wrapper: only the payload of the named variant is constrained
             if r[0] == "agg" and r[2] == pr["wrap"]:
@@ -119,6 +121,8 @@ def p_returns_variant(pr, prog, cg, body, R):
         ok = r[0] == "agg" and r[2] == pr["variant"]
         if not ok and r[0] == "call":
             ok = any(r[1].endswith(x) for x in pr.get("via", []))
+        if not ok and r[0] == "field" and r[2] in ("Ok.0", "Some.0") and strip(r[1])[0] == "call":
+            ok = any(strip(r[1])[1].endswith(x) for x in pr.get("via", []))
         if not ok:
             return False, "%s can return %s" % (pr["fn"], r[:3])
     return n > 0, "%s returns only %s (%d paths)" % (pr["fn"].split("::")[-1], pr["variant"], n)
